@@ -63,11 +63,11 @@ mod sched {
         std::mem::take(&mut *TRACE.lock().unwrap())
     }
 
-    /// `Condvar` for the scheduler-controlled build.  `wait`, `wait_while` and the notifications
-    /// are shuttle's.  shuttle's timed waits never time out; here a timed wait is woken either by
-    /// a notification or by a "timer" (a scheduler-controlled thread that stands for the passage of
-    /// time), at a moment the scheduler chooses, and then reports a time-out if its condition
-    /// still holds.  delta itself has no timed wait; this exists so that a change which
+    /// `Condvar` for the scheduler-controlled build.  `wait` and the notifications are shuttle's,
+    /// plus spurious wake-ups; `wait_while` is std's loop over that `wait`.  shuttle's timed
+    /// waits never time out; here a timed wait is woken either by a notification or by a
+    /// "timer" (a scheduler-controlled thread that stands for the passage of time), at a moment
+    /// the scheduler chooses, and then reports a time-out if its condition still holds.  delta itself has no timed wait; this exists so that a change which
     /// introduces one is explored with both outcomes instead of with "never times out".
     pub struct SimCondvar {
         inner: shuttle::sync::Arc<shuttle::sync::Condvar>,
@@ -92,17 +92,39 @@ mod sched {
             }
         }
         pub fn wait<'a, T>(&self, guard: Guard<'a, T>) -> std::sync::LockResult<Guard<'a, T>> {
+            self.maybe_spurious_wakeup();
             self.inner.wait(guard)
         }
         pub fn wait_while<'a, T, F>(
             &self,
-            guard: Guard<'a, T>,
-            condition: F,
+            mut guard: Guard<'a, T>,
+            mut condition: F,
         ) -> std::sync::LockResult<Guard<'a, T>>
         where
             F: FnMut(&mut T) -> bool,
         {
-            self.inner.wait_while(guard, condition)
+            // std's definition, over a `wait` that may wake up spuriously
+            while condition(&mut *guard) {
+                guard = self.wait(guard)?;
+            }
+            Ok(guard)
+        }
+        /// A wait on a condition variable may return without any notification (std documents
+        /// it, shuttle never does it).  One wait in four is accompanied by a scheduler-controlled
+        /// thread that notifies once, at a moment the scheduler chooses, although nothing was
+        /// published.
+        fn maybe_spurious_wakeup(&self) {
+            use shuttle::rand::Rng;
+            if shuttle::rand::thread_rng().gen::<u8>() % 4 != 0 {
+                return;
+            }
+            trace_push("W-spurious-armed");
+            let cv = self.inner.clone();
+            shuttle::thread::spawn(move || {
+                shuttle::thread::sleep(std::time::Duration::from_millis(0));
+                trace_push("W-spurious-notify");
+                cv.notify_all();
+            });
         }
         pub fn notify_all(&self) {
             self.inner.notify_all()
